@@ -104,19 +104,26 @@ def warnStep (s : St) : St := { s with warnings := s.warnings + 1 }
 def oweAck (s : St) (mid seq : Nat) : St :=
   if seq % 2 = 1 then { s with owedAck := s.owedAck ++ [mid], gotOdd := mid :: s.gotOdd } else s
 
+/-- how deep `msg_container` may be nested before the message is refused (mtproto.go `maxContainerDepth`) -/
+def maxContainerDepth : Nat := 4
+
 mutual
-/-- `processResponse` for one message: dispatch, then the acknowledgement owed for an odd seq_no -/
-def process (s : St) (mid seq : Nat) : Msg → St
+/-- `processResponse` for one message, `d` containers deep: dispatch, then the acknowledgement owed for an
+odd seq_no. A container nested deeper than `maxContainerDepth` is refused as a whole (one warning; its
+members are never looked at). -/
+def process (d : Nat) (s : St) (mid seq : Nat) : Msg → St
   | .res rid v => oweAck (resStep s rid v) mid seq
   | .salt bad ns => oweAck (saltStep s bad ns) mid seq
   | .news ns => oweAck (newsStep s ns) mid seq
   | .badmsg bad => oweAck (badStep s bad) mid seq
   | .quiet => oweAck s mid seq
   | .odd => oweAck (warnStep s) mid seq
-  | .cont ms => oweAck (processAll s ms) mid seq
-def processAll (s : St) : List (Nat × Nat × Msg) → St
+  | .cont ms =>
+    if d < maxContainerDepth then oweAck (processAll (d + 1) s ms) mid seq
+    else oweAck (warnStep s) mid seq
+def processAll (d : Nat) (s : St) : List (Nat × Nat × Msg) → St
   | [] => s
-  | (mid, seq, m) :: rest => processAll (process s mid seq m) rest
+  | (mid, seq, m) :: rest => processAll d (process d s mid seq m) rest
 end
 
 mutual
@@ -125,25 +132,27 @@ theorem process_preserves (P : St → Prop)
     (h1 : ∀ s rid v, P s → P (resStep s rid v)) (h2 : ∀ s bad ns, P s → P (saltStep s bad ns))
     (h3 : ∀ s ns, P s → P (newsStep s ns)) (h4 : ∀ s bad, P s → P (badStep s bad))
     (h5 : ∀ s, P s → P (warnStep s)) (h6 : ∀ s mid seq, P s → P (oweAck s mid seq)) :
-    ∀ (m : Msg) (s : St) (mid seq : Nat), P s → P (process s mid seq m)
-  | .res rid v, s, mid, seq, h => by simp only [process]; exact h6 _ _ _ (h1 _ _ _ h)
-  | .salt bad ns, s, mid, seq, h => by simp only [process]; exact h6 _ _ _ (h2 _ _ _ h)
-  | .news ns, s, mid, seq, h => by simp only [process]; exact h6 _ _ _ (h3 _ _ h)
-  | .badmsg bad, s, mid, seq, h => by simp only [process]; exact h6 _ _ _ (h4 _ _ h)
-  | .quiet, s, mid, seq, h => by simp only [process]; exact h6 _ _ _ h
-  | .odd, s, mid, seq, h => by simp only [process]; exact h6 _ _ _ (h5 _ h)
-  | .cont ms, s, mid, seq, h => by
+    ∀ (m : Msg) (d : Nat) (s : St) (mid seq : Nat), P s → P (process d s mid seq m)
+  | .res rid v, d, s, mid, seq, h => by simp only [process]; exact h6 _ _ _ (h1 _ _ _ h)
+  | .salt bad ns, d, s, mid, seq, h => by simp only [process]; exact h6 _ _ _ (h2 _ _ _ h)
+  | .news ns, d, s, mid, seq, h => by simp only [process]; exact h6 _ _ _ (h3 _ _ h)
+  | .badmsg bad, d, s, mid, seq, h => by simp only [process]; exact h6 _ _ _ (h4 _ _ h)
+  | .quiet, d, s, mid, seq, h => by simp only [process]; exact h6 _ _ _ h
+  | .odd, d, s, mid, seq, h => by simp only [process]; exact h6 _ _ _ (h5 _ h)
+  | .cont ms, d, s, mid, seq, h => by
     simp only [process]
-    exact h6 _ _ _ (processAll_preserves P h1 h2 h3 h4 h5 h6 ms s h)
+    split
+    · exact h6 _ _ _ (processAll_preserves P h1 h2 h3 h4 h5 h6 ms (d + 1) s h)
+    · exact h6 _ _ _ (h5 _ h)
 theorem processAll_preserves (P : St → Prop)
     (h1 : ∀ s rid v, P s → P (resStep s rid v)) (h2 : ∀ s bad ns, P s → P (saltStep s bad ns))
     (h3 : ∀ s ns, P s → P (newsStep s ns)) (h4 : ∀ s bad, P s → P (badStep s bad))
     (h5 : ∀ s, P s → P (warnStep s)) (h6 : ∀ s mid seq, P s → P (oweAck s mid seq)) :
-    ∀ (ms : List (Nat × Nat × Msg)) (s : St), P s → P (processAll s ms)
-  | [], s, h => by simpa [processAll] using h
-  | (mid, seq, m) :: rest, s, h => by
+    ∀ (ms : List (Nat × Nat × Msg)) (d : Nat) (s : St), P s → P (processAll d s ms)
+  | [], d, s, h => by simpa [processAll] using h
+  | (mid, seq, m) :: rest, d, s, h => by
     simp only [processAll]
-    exact processAll_preserves P h1 h2 h3 h4 h5 h6 rest _ (process_preserves P h1 h2 h3 h4 h5 h6 m s mid seq h)
+    exact processAll_preserves P h1 h2 h3 h4 h5 h6 rest d _ (process_preserves P h1 h2 h3 h4 h5 h6 m d s mid seq h)
 end
 
 /-- strike one occurrence of every acknowledged id off the list of owed acknowledgements (a message
@@ -165,7 +174,7 @@ def step (s : St) : Ev → Option St
       some { s with lastId := id, lastSeq := seq, owedAck := strike s.owedAck ids,
                     acked := ids ++ s.acked, wire := (id, seq) :: s.wire }
     else none
-  | .recv mid seq m => some (process s mid seq m)
+  | .recv mid seq m => some (process 0 s mid seq m)
   | .deliver c v =>
     match s.owedDeliver.find? (fun e => e.1 == c) with
     | some (c', rid, v') =>
